@@ -9133,7 +9133,7 @@ bool SoPlexBase<R>::_parseSettingsLine(char* line, const int lineNumber)
    }
 
    // check whether we have a bool parameter
-   if(strncmp(paramTypeString, "bool", 4) == 0)
+   if(strcmp(paramTypeString, "bool") == 0)
    {
       for(int param = 0; ; param++)
       {
@@ -9174,7 +9174,7 @@ bool SoPlexBase<R>::_parseSettingsLine(char* line, const int lineNumber)
    }
 
    // check whether we have an integer parameter
-   if(strncmp(paramTypeString, "int", 3) == 0)
+   if(strcmp(paramTypeString, "int") == 0)
    {
       for(int param = 0; ; param++)
       {
@@ -9188,10 +9188,15 @@ bool SoPlexBase<R>::_parseSettingsLine(char* line, const int lineNumber)
                          SPX_SET_MAX_LINE_LEN) == 0)
          {
             int value;
+            size_t pos;
 
             try
             {
-               value = std::stoi(paramValueString);
+               value = std::stoi(paramValueString, &pos);
+
+               // the whole token has to be the number: "12abc" or "7.9" is not an integer
+               if(paramValueString[pos] != '\0')
+                  throw std::invalid_argument(paramValueString);
             }
             catch(const std::exception&)
             {
@@ -9216,7 +9221,7 @@ bool SoPlexBase<R>::_parseSettingsLine(char* line, const int lineNumber)
    }
 
    // check whether we have a R parameter
-   if(strncmp(paramTypeString, "real", 4) == 0)
+   if(strcmp(paramTypeString, "real") == 0)
    {
       for(int param = 0; ; param++)
       {
@@ -9230,19 +9235,24 @@ bool SoPlexBase<R>::_parseSettingsLine(char* line, const int lineNumber)
                          SPX_SET_MAX_LINE_LEN) == 0)
          {
             Real value;
+            size_t pos;
 
 
             try
             {
 #ifdef WITH_LONG_DOUBLE
-               value = std::stold(paramValueString);
+               value = std::stold(paramValueString, &pos);
 #else
 #ifdef WITH_FLOAT
-               value = std::stof(paramValueString);
+               value = std::stof(paramValueString, &pos);
 #else
-               value = std::stod(paramValueString);
+               value = std::stod(paramValueString, &pos);
 #endif
 #endif
+
+               // the whole token has to be the number: "1e-3xyz" is not a real
+               if(paramValueString[pos] != '\0')
+                  throw std::invalid_argument(paramValueString);
             }
             catch(const std::exception&)
             {
@@ -9269,7 +9279,7 @@ bool SoPlexBase<R>::_parseSettingsLine(char* line, const int lineNumber)
 #ifdef SOPLEX_WITH_RATIONALPARAM
 
    // check whether we have a rational parameter
-   if(strncmp(paramTypeString, "rational", 8) == 0)
+   if(strcmp(paramTypeString, "rational") == 0)
    {
       for(int param = 0; ; param++)
       {
@@ -9302,17 +9312,22 @@ bool SoPlexBase<R>::_parseSettingsLine(char* line, const int lineNumber)
 #endif
 
    // check whether we have the random seed
-   if(strncmp(paramTypeString, "uint", 4) == 0)
+   if(strcmp(paramTypeString, "uint") == 0)
    {
-      if(strncmp(paramName, "random_seed", 11) == 0)
+      if(strcmp(paramName, "random_seed") == 0)
       {
          unsigned int value;
          unsigned long parseval;
+         size_t pos;
 
 
          try
          {
-            parseval = std::stoul(paramValueString);
+            parseval = std::stoul(paramValueString, &pos);
+
+            // the whole token has to be a non-negative number; stoul() wraps a negative number around
+            if(paramValueString[pos] != '\0' || paramValueString[0] == '-')
+               throw std::invalid_argument(paramValueString);
          }
          catch(const std::exception&)
          {
@@ -9666,7 +9681,7 @@ bool SoPlexBase<R>::parseSettingsString(char* string)
    }
 
    // check whether we have a bool parameter
-   if(strncmp(paramTypeString, "bool", 4) == 0)
+   if(strcmp(paramTypeString, "bool") == 0)
    {
       for(int param = 0; ; param++)
       {
@@ -9707,7 +9722,7 @@ bool SoPlexBase<R>::parseSettingsString(char* string)
    }
 
    // check whether we have an integer parameter
-   if(strncmp(paramTypeString, "int", 3) == 0)
+   if(strcmp(paramTypeString, "int") == 0)
    {
       for(int param = 0; ; param++)
       {
@@ -9721,10 +9736,15 @@ bool SoPlexBase<R>::parseSettingsString(char* string)
                          SPX_SET_MAX_LINE_LEN) == 0)
          {
             int value;
+            size_t pos;
 
             try
             {
-               value = std::stoi(paramValueString);
+               value = std::stoi(paramValueString, &pos);
+
+               // the whole token has to be the number: "12abc" or "7.9" is not an integer
+               if(paramValueString[pos] != '\0')
+                  throw std::invalid_argument(paramValueString);
             }
             catch(const std::exception&)
             {
@@ -9749,7 +9769,7 @@ bool SoPlexBase<R>::parseSettingsString(char* string)
    }
 
    // check whether we have a real parameter
-   if(strncmp(paramTypeString, "real", 4) == 0)
+   if(strcmp(paramTypeString, "real") == 0)
    {
       for(int param = 0; ; param++)
       {
@@ -9763,18 +9783,23 @@ bool SoPlexBase<R>::parseSettingsString(char* string)
                          SPX_SET_MAX_LINE_LEN) == 0)
          {
             Real value;
+            size_t pos;
 
             try
             {
 #ifdef WITH_LONG_DOUBLE
-               value = std::stold(paramValueString);
+               value = std::stold(paramValueString, &pos);
 #else
 #ifdef WITH_FLOAT
-               value = std::stof(paramValueString);
+               value = std::stof(paramValueString, &pos);
 #else
-               value = std::stod(paramValueString);
+               value = std::stod(paramValueString, &pos);
 #endif
 #endif
+
+               // the whole token has to be the number: "1e-3xyz" is not a real
+               if(paramValueString[pos] != '\0')
+                  throw std::invalid_argument(paramValueString);
             }
             catch(const std::exception&)
             {
@@ -9801,7 +9826,7 @@ bool SoPlexBase<R>::parseSettingsString(char* string)
 #ifdef SOPLEX_WITH_RATIONALPARAM
 
    // check whether we have a rational parameter
-   if(strncmp(paramTypeString, "rational", 8) == 0)
+   if(strcmp(paramTypeString, "rational") == 0)
    {
       for(int param = 0; ; param++)
       {
@@ -9834,17 +9859,22 @@ bool SoPlexBase<R>::parseSettingsString(char* string)
 #endif
 
    // check whether we have the random seed
-   if(strncmp(paramTypeString, "uint", 4) == 0)
+   if(strcmp(paramTypeString, "uint") == 0)
    {
-      if(strncmp(paramName, "random_seed", 11) == 0)
+      if(strcmp(paramName, "random_seed") == 0)
       {
          unsigned int value;
          unsigned long parseval;
+         size_t pos;
 
 
          try
          {
-            parseval = std::stoul(paramValueString);
+            parseval = std::stoul(paramValueString, &pos);
+
+            // the whole token has to be a non-negative number; stoul() wraps a negative number around
+            if(paramValueString[pos] != '\0' || paramValueString[0] == '-')
+               throw std::invalid_argument(paramValueString);
          }
          catch(const std::exception&)
          {
